@@ -265,8 +265,22 @@ def _r10d(rep):
                  "the kernel does not receive self._frequencies / self._cutoff_frequency (both in eV)", line=call.lineno)
     # cutoff and frequencies are converted with the same factor
     init = core.find_def(PY, "ThermalPropertiesBase.__init__")
-    conv = [core.src(s.value) for s in ast.walk(init) if isinstance(s, ast.Assign) and core.src(s.targets[0]) in ("self._cutoff_frequency", "self._frequencies")]
-    ok = any("cutoff_frequency * THzToEv" in c for c in conv) and any(c.endswith("* THzToEv") and "self._frequencies" in c for c in conv)
+    def _factors(e):
+        if isinstance(e, ast.BinOp) and isinstance(e.op, ast.Mult):
+            return _factors(e.left) + _factors(e.right)
+        return [core.src(e)]
+
+    def _conversions(target):
+        """how often the attribute is multiplied by THzToEv: product in an assignment, or in-place"""
+        n_ = 0
+        for s_ in ast.walk(init):
+            if isinstance(s_, ast.Assign) and core.src(s_.targets[0]) == target and "THzToEv" in _factors(s_.value):
+                n_ += 1
+            if isinstance(s_, ast.AugAssign) and isinstance(s_.op, ast.Mult) and core.src(s_.target) == target and "THzToEv" in _factors(s_.value):
+                n_ += 1
+        return n_
+
+    ok = _conversions("self._cutoff_frequency") == 1 and _conversions("self._frequencies") == 1
     rep.instance("R10d", PY, "ThermalPropertiesBase.__init__", "cutoff_frequency * THzToEv ; frequencies * THzToEv", ok,
                  "cutoff and frequencies are no longer converted to eV by the same factor THzToEv", line=init.lineno)
 
@@ -690,6 +704,7 @@ def selftest():
     V = []
     b = lambda name, file, old, new, rule, expect="", **kw: V.append(dict(name=name, kind="break", file=file, old=old, new=new, rule=rule, expect=expect, **kw))
     n = lambda name, file, old, new, **kw: V.append(dict(name=name, kind="neutral", file=file, old=old, new=new, **kw))
+    b("result array of the compiled thermal reduction allocated without contents", PY, '        props = np.zeros((len(self._temperatures), 3), dtype="double", order="C")', '        props = np.empty((len(self._temperatures), 3), dtype="double", order="C")', "R10y.zeroinit", "_run_c_thermal_properties")
     b("projected thermal sums mask the component axis", PY, "                        eigvecs2[:, cond],", "                        eigvecs2[cond],", "R10k", "_calculate_thermal_property")
     b("entropy: sign of the log term", PY, "return freqs / temp * expVal / (1.0 - expVal) - Kb * np.log(1.0 - expVal)", "return freqs / temp * expVal / (1.0 - expVal) + Kb * np.log(1.0 - expVal)", "R10a", "S + dF/dT")
     b("heat capacity: exp(+x) form back (NaN at large x)", PY, "        expVal = np.exp(-x)\n        return Kb * x**2 * expVal / (1.0 - expVal) ** 2", "        expVal = np.exp(x)\n        return Kb * x**2 * expVal / (expVal - 1.0) ** 2", "R10c", "mode_cv")
